@@ -42,7 +42,7 @@ def add_noise(e: ESpec):
     # `#[strum(crate = "::strum")]` names the crate every other enum uses implicitly
     if 'strum_path' not in e.extra and (h >> 70) % 4 == 0:
         e.extra['strum_path'] = '::strum'
-    if h % 3 != 0:
+    if h % 2 != 0:
         return
     consumes = set(e.derives)
     for k, v in enumerate(e.variants):
